@@ -6,14 +6,14 @@ import (
 	"go/token"
 	"log"
 	"strings"
+	"unicode"
+	"unicode/utf8"
 
 	"go/ast"
 
 	"github.com/parsyl/parquet/cmd/parquetgen/fields"
 	flds "github.com/parsyl/parquet/cmd/parquetgen/fields"
 )
-
-const letters = "abcdefghijklmnopqrstuvwxyz"
 
 type field struct {
 	Field     fields.Field
@@ -124,7 +124,9 @@ func isPrivate(x *ast.Field) bool {
 	} else {
 		s = fmt.Sprintf("%s", x.Names[0])
 	}
-	return strings.Contains(letters, string(s[0]))
+	// a field is exported only if its name starts with an upper case letter
+	r, _ := utf8.DecodeRuneInString(s)
+	return r == '_' || (unicode.IsLetter(r) && !unicode.IsUpper(r))
 }
 
 func getFields(n map[string]ast.Node) (map[string]fields.Field, error) {
@@ -158,6 +160,9 @@ func getFields(n map[string]ast.Node) (map[string]fields.Field, error) {
 						parent.Children = append(parent.Children, f)
 					}
 				}
+				// the parameters of a func type, the fields of an inline
+				// struct, etc. are not fields of this struct
+				return false
 			}
 			return true
 		})
